@@ -37,6 +37,11 @@ def gen(rng, tier, i):
     if tier == "quick" and middle.startswith("quic") and rng.random() < 0.3:
         middle = "none"
     chaos = {"delay_min_us": 0, "delay_max_us": rng.choice([0, 2000, 20000]), "udp_reorder": rng.random() < 0.7, "capacity": 1 << 20}
+    if middle == "quic-dgram" and chaos["udp_reorder"] and chaos["delay_max_us"] > 2000:
+        # QUIC datagrams are only as reliable as QUIC: quinn discards a packet that arrives more than 128 packet numbers
+        # behind the newest one (duplicate-detection window), so reordering deeper than that *is* loss on this hop and the
+        # property's premise ("absent network loss") no longer holds. Keep the reordering depth below that window.
+        chaos["delay_max_us"] = 2000
     sc.net["chaos"] = chaos
     sc.net["spawn_yield"] = rng.choice([0, 300])
     sc.cfg["timeouts"] = {"idle": 30, "udp": 30}
